@@ -53,7 +53,7 @@ def run_scenarios(ctx: Ctx, scenarios: list) -> list:
 def run(ctx: Ctx) -> None:
     from props import regmodel as rm
     rng = random.Random(ctx.seed * 7919 + 9)
-    scenarios = [rf.gen_c09(rng, 'c09-%d' % k, ctx.thorough) for k in range(ctx.pick(300, 5000))]
+    scenarios = [rf.gen_c09(rng, 'c09-%d' % k, ctx.thorough) for k in range(ctx.pick(300, 12000))]
     # binding 1: the implementation-shaped model of the probing coroutine against the schedule / conflict contract
     info = rm.check_models(ctx)
     ctx.log('Register model: %d distinct states, contract invariants hold; variant without the re-check after a wait violates %s'
